@@ -3,7 +3,7 @@ from hypothesis import strategies as st
 
 from anytree import ChildResolverError, Resolver, ResolverError, RootResolverError, Walker
 
-from .. import forest, refs, resolver_ref as rr, shapes, strategies
+from .. import big, forest, refs, resolver_ref as rr, shapes, strategies
 from ..core import Violation
 
 PROP_ID = "C07"
@@ -121,7 +121,54 @@ def siblings_unique(nodes, pathattr, ic):
     return True
 
 
+def check_long(case, acc):
+    """Paths with more components than the interpreter's recursion limit, on a two-node tree (zig-zag) and on a chain
+    that deep: get() follows a path in a loop, so length is no excuse."""
+    sep, ic = case["sep"], case["ignorecase"]
+    base = {"sep": sep, "pathattr": "name", "ignorecase": ic, "names": ["top", "b"]}
+    cls = rr.make_class(sep, "name")
+    top = cls("top")
+    b = cls("b")
+    b.parent = top
+    labels = forest.Labels([top, b])
+    n = big.deep_size(1)
+    zig = sep.join(["b", ".."] * n)
+    for start, path, want in (
+        (top, zig, top),
+        (top, zig + sep + "b", b),
+        (b, sep.join(["..", "b"] * n), b),
+        (top, sep + "top" + sep + zig + sep + "." + sep + "b", b),
+    ):
+        exp = check_path(base, [top, b], labels, start, path, acc)
+        if exp[0] != "node" or exp[1] is not want:
+            raise Violation("round-trip", "zig-zag path of %d components does not denote the expected node" % (2 * n))
+    for start, path, err in ((top, zig + sep + "zz", "ChildResolverError"), (top, zig + sep + ".." + sep + "..", "RootResolverError")):
+        exp = check_path(base, [top, b], labels, start, path, acc)
+        if exp[:2] != ("error", err):
+            raise Violation("strict-error-class", "reference disagrees with itself on a long failing path: %r" % (exp[:2],))
+    # a chain deeper than the limit: absolute path of the bottom node, and the way back up
+    chain = [cls("n0")]
+    for i in range(1, n):
+        node = cls("n%d" % i)
+        node.parent = chain[-1]
+        chain.append(node)
+    labels = forest.Labels(chain)
+    deep = dict(base, names=["<chain of %d nodes>" % n])
+    down = sep.join("n%d" % i for i in range(1, n))
+    for start, path, want in ((chain[0], down, chain[-1]), (chain[5], sep + "n0" + sep + down, chain[-1]), (chain[-1], sep.join([".."] * (n - 1)), chain[0]), (chain[-1], sep.join([".."] * (n - 3)) + sep + "n3", chain[3])):
+        exp = check_path(deep, chain, labels, start, path, acc)
+        if exp[0] != "node" or exp[1] is not want:
+            raise Violation("round-trip", "path along a chain of %d nodes does not denote the expected node" % n)
+    exp = check_path(deep, chain, labels, chain[-1], sep.join([".."] * n), acc)
+    if exp[:2] != ("error", "RootResolverError"):
+        raise Violation("strict-error-class", "reference: %r" % (exp[:2],))
+    acc.nontrivial(True)
+    acc.tag("paths_longer_than_the_recursion_limit")
+
+
 def check_case(case, acc):
+    if case.get("kind") == "long":
+        return check_long(case, acc)
     nodes = rr.build(case)
     labels = forest.Labels(nodes)
     _once(case, acc, nodes, labels)
@@ -275,6 +322,7 @@ def plan(tier, seed):
     max_nodes = 3 if tier == "quick" else 5
     tasks = [{"engine": "enum", "max_nodes": max_nodes, "index": i, "count": nshards} for i in range(nshards)]
     tasks += [{"engine": "hyp", "examples": examples, "seed": seed * 1000 + i} for i in range(nshards)]
+    tasks += [{"engine": "long", "sep": sep, "ignorecase": ic} for sep, ic in (("/", False), ("::", True))]
     if tier == "thorough":
         # coverage-guided supplement: 16 libFuzzer campaigns on the same strategy + oracle (skipped if atheris is unavailable)
         tasks += [{"engine": "fuzz", "runs": 4000, "seed": seed * 100 + i + 1} for i in range(nshards)]
@@ -286,6 +334,12 @@ def run_task(task, acc):
         from ..core import run_fuzz_task
 
         return run_fuzz_task(PROP_ID, task, acc)
+    if task["engine"] == "long":
+        case = {"kind": "long", "sep": task["sep"], "ignorecase": task["ignorecase"]}
+        exc = acc.evaluate(check_case, case, enumerated=False)
+        if exc is not None:
+            acc.add_violation(case, exc)
+        return
     if task["engine"] == "enum":
         acc.run_enum(check_case, _enum_cases(task["max_nodes"], task["index"], task["count"]))
     else:
